@@ -33,7 +33,7 @@ REQUIRED = ['C15.Inv_init', 'C15.Inv_step', 'C15.Inv_run', 'C15.metric_value', '
             'C15.container_cv_is_cycle_vector', 'C15.init_is_good_is_quality_flag',
             'C15.cache_relevant_short_vals', 'C15.cache_relevant_short_vals_augmented', 'C15.cache_irrelevant_run',
             'C15.chain_position_spec', 'C15.position_in_chain_spec', 'C15.metric_frame', 'C15.metric_persists',
-            'C15.metric_value_persists', 'C15.add_metric_guard', 'C15.chain_metric_value']
+            'C15.metric_value_persists', 'C15.add_metric_guard', 'C15.add_from_int_spec', 'C15.add_from_int_missing', 'C15.toIntVals_no_nan', 'C15.chain_metric_value']
 TRUSTED = ["Python's float(text) is an oracle: the harness sends float(cond[i:]) for every suffix of every condition, the model chooses the suffix",
            'pandas builds the table (DataFrame.from_dict / drop / reset_index): only row count, column names and cell values are compared',
            'the float constants 1.5*pi (trough threshold), 2*pi and 2*pi - phase_edge are computed by the harness with the documented expressions and handed to the model exactly',
@@ -59,7 +59,7 @@ THR = 1.5 * np.pi
 FNAMES = ['mean', 'max', 'sum', 'len', 'first', 'last', 'nunique']
 RULE = ('sequences: exhaustive over a 10-operation alphabet up to length 3 (quick) / 4 (thorough) on three alphabet phases (one shorter on the zero-cycle phase), plus random '
         'sequences up to length 12 on synthetic phases (variable, noisy, occasionally reversing frequency; 1-400 samples; phases without any '
-        'wrap included); operations {compute metric (cycle / augmented) with %s, add metric (right and wrong length, reserved names), add an integer metric from a STORED metric (add_cycle_metric(name, C.metrics[src], dtype=int); values taken from the observation before the operation; a missing src is rejected by the harness without calling the library), '
+        'wrap included); operations {compute metric (cycle / augmented) with %s, add metric (right and wrong length, reserved names), add an integer metric from a STORED metric (add_cycle_metric(name, C.metrics[src], dtype=int); an unknown src is a KeyError), '
         'compute timings, pick subset with 1-3 conditions over == != < <= > >= and negative / decimal / exponent literals and near-miss literals 2e-6 relative / 1e-9 absolute off a stored value, chain timings, '
         'chain metric, export all / subset / conditions, get_matching_cycles}; every case runs with cache on and off; about 1 percent of the '
         'compute-metric operations get a value vector of the wrong length (outside the domain: compared with the model, not judged). Non-trivial: '
@@ -123,8 +123,6 @@ def apply_op(C, op, n):
     elif k == 'add_from':
         # a stored metric handed back as the values of a new integer metric: add_cycle_metric(name, C.metrics[src], dtype=int)
         # (round 6, C15 patch 2: the int branch replaced NaN by -1 IN the array it was given - here a stored metric)
-        if op['src'] not in C.metrics:
-            raise ValueError('harness: no metric %r to copy from' % op['src'])   # harness-side rejection, the library is not called
         r = C.add_cycle_metric(op['name'], C.metrics[op['src']], dtype=int)
         if isinstance(r, Exception):
             raise r
@@ -208,9 +206,7 @@ def _int_vals(v):
 
 
 def encode(case, cache, trace=None):
-    """`trace` (the implementation's observations) is needed only for `add_from`: the values handed to the library there are the
-    stored metric `src` AS OBSERVED BEFORE the operation; the model stores their integer form under `name` and - by the frame
-    theorem C15 (`step_sget_other`) - leaves every other metric, `src` included, as it was."""
+    """`trace` is unused (kept for callers): every operation, `add_from` included, is evaluated by the model from its own state."""
     step = case.get('step') or _cyc.DEFAULT_STEP
     edge = case.get('edge') or _cyc.DEFAULT_EDGE
     vecs = [[float(v) for v in case['phase']], [len(case['probe'])]] + _cond_slots(case['probe'])
@@ -221,11 +217,8 @@ def encode(case, cache, trace=None):
         elif k == 'add':
             vecs += [[2], _chars(op['name']), op['vals']]
         elif k == 'add_from':
-            src = None
-            if trace is not None and idx < len(trace):
-                src = dict((n, v) for n, v in trace[idx]['metrics']).get(op['src'])
-            # no such metric (or no trace): a vector of impossible length, which the model rejects like the harness does
-            vecs += [[2], _chars(op['name']), _int_vals(src) if src is not None else [0.0] * (len(case['phase']) + 1)]
+            # the model looks the source up in ITS store (Op.addFromInt; theorem C15.add_from_int_spec)
+            vecs += [[9], _chars(op['name']), _chars(op['src'])]
         elif k == 'timings':
             vecs += [[3]]
         elif k == 'pick':
